@@ -23,6 +23,9 @@ extern int h6(int n, int m[*][n]);
 static void h7(int (*cb)(int, int), int *restrict out) { *out = cb(1, 2); }
 static long long gll = 1LL << 40; static unsigned long long gull = 3ULL; static long double gld = 2.5L; static signed char gsc = -1; static unsigned short gus = 9;
 static int *volatile gvp = &gi; static const volatile int gcv = 4; static int *const gcp = &gi; static volatile int *gpv = &gi;
+static int h9(void) { struct lt { int a; long b[2]; } v = { 1, { 2, 3 } }; return (int)sizeof v + v.a; }
+static int h10(void) { struct lt { char c; } v = { 'x' }; enum le { LA = 3, LB } e = LB; return (int)sizeof v + e + LA; }
+static int h11(void) { enum le { LA = 7, LC } e = LC; union lt { int i; double d; } u = { 1 }; return e + LA + u.i; }
 static int h8(void) { return (int)(gll >> 38) + (int)gull + (int)gld + gsc + gus + *gvp + gcv + *gcp + *gpv; }
 """
 PRE11 = """struct A11 { int x; struct { int ax; int ay; }; union { int au; float av; }; };
@@ -159,7 +162,8 @@ class SG:
         if k == 20:
             return ("(int){%s}" % W(e(), M.L_ASG), M.L_POSTFIX)
         if k == 21:
-            form, lv = c.choice([("((struct S){.m = %s, .d = 1.0}).m", M.L_POSTFIX), ("(struct S){.m = %s, .d = 1.0}.m", M.L_POSTFIX), ("(int[]){1, %s, 3}[1]", M.L_POSTFIX), ("(int)sizeof (int){%s}", M.L_CAST)])
+            form, lv = c.choice([("((struct S){.m = %s, .d = 1.0}).m", M.L_POSTFIX), ("(struct S){.m = %s, .d = 1.0}.m", M.L_POSTFIX), ("(int[]){1, %s, 3}[1]", M.L_POSTFIX), ("(int)sizeof (int){%s}", M.L_CAST),
+                                  ("(int)sizeof (int[]){1, %s}[0]", M.L_CAST), ("(int)sizeof (struct S){.m = %s}.m", M.L_CAST), ("(int)sizeof (struct S *[]){gsp, (%s, gsp)}[1]->m", M.L_CAST)])
             return (form % W(e(), M.L_ASG), lv)
         if k == 22:
             return ("(T)(UL)" + W(e(), M.L_CAST), M.L_CAST)
@@ -219,7 +223,7 @@ class SG:
     def decl(self):
         c = self.c
         n = self.fresh()
-        k = c.below(18)
+        k = c.below(19)
         sc = self.scopes[-1]
         if k < 3:
             q = c.choice(["", "", "const ", "volatile ", "auto ", "const volatile "])
@@ -276,6 +280,11 @@ class SG:
             if r == 3:
                 return 'const char *%s_u8 = u8"a"; const unsigned short *%s_u16 = (const unsigned short *)u"b"; const unsigned *%s_u32 = (const unsigned *)U"c";' % (n, n, n)
             return "struct A11 %s_an = { .ax = %s, .au = 1 }; int %s_x = %s_an.ax + %s_an.au;" % (n, self.xi(1), n, n, n)
+        if k == 17:
+            sc[n] = "int"
+            tag = c.choice(["lt0", "lt1"])
+            body = c.choice(["int a;", "int a; long b[2];", "char a; double b; int c;", "short a : 3; int : 0; int c;"])
+            return "struct %s { %s } %s_s; int %s = (int)sizeof(struct %s) + (int)sizeof %s_s;" % (tag, body, n, n, tag, n)
         sc[n] = "int"
         return "typedef int %s_t; %s_t %s = %s;" % (n, n, n, self.xi(1))
 
